@@ -1608,13 +1608,16 @@ class Generator:
         if l is None:
             return None
         names = set(l.m.names())
+        # operands derived from the same table (split a table, treat the parts, put them together
+        # again) share column identities: the union's columns are those of its left operand
+        same_origin = self.rng.random() < self.p.get("p_union_same_origin", 0.0)
 
         def ok(p):
             return (
                 not p.m.grouping
                 and set(p.m.names()) == names
-                and not (p.m.origins & l.m.origins)
-                and not (set(p.m.scope) & set(l.m.scope))
+                and (p.id != l.id or same_origin)
+                and (same_origin or (not (p.m.origins & l.m.origins) and not (set(p.m.scope) & set(l.m.scope))))
                 and set(p.real) & set(l.real)
                 and self.union_types_ok(l, p)
                 and not p.m.full_join
@@ -1624,6 +1627,8 @@ class Generator:
         if r is None:
             return None
         m.note("union")
+        if (r.m.origins & l.m.origins) or (set(r.m.scope) & set(l.m.scope)):
+            m.note("union_same_origin")
         return {"op": "union", "l": l.id, "r": r.id, "distinct": self.rng.random() < 0.4}
 
     def union_types_ok(self, l, r):
